@@ -470,6 +470,7 @@ func c10Judge(s *scn.Scn, r *scn.Run, m *scn.MResult) (sig, detail string) {
 	names := map[string]bool{}
 	s.Walk(func(f *scn.Frame, static bool, depth int, parent *scn.Frame) {
 		names[scn.JournalName(s.Kid(f.ID), 1)], names[scn.JournalName(s.Kid(f.ID), 2)] = true, true
+		names[scn.RefName(s.Kid(f.ID), 1)], names[scn.RefName(s.Kid(f.ID), 2)] = true, true
 	})
 	var sorted []string
 	for name := range names {
